@@ -535,7 +535,7 @@ def exec_job(job, workdir):
             nxt = os.path.join(d, "b.gb")
             rc, so, se, sec = run(["goto-instrument", "--apply-loop-contracts", cur, nxt], d, 300)
             log.append(so[-4000:] + se[-4000:])
-            if rc != 0:
+            if rc != 0 or not os.path.exists(nxt) or "not side-effect free" in so + se:
                 return fail("error", "goto-instrument --apply-loop-contracts failed")
             cur = nxt
         cmd = ["cbmc", cur, "--json-ui", "--trace"]
